@@ -1,7 +1,7 @@
 /-
 CV.Rbac — model of the translation of Connect intentions into an Envoy RBAC policy (property C14).
 
-Mirrors (consul CE: partition = namespace = `default`, no sameness groups, no JWT providers)
+Mirrors (consul CE: partition = namespace = `default`, no sameness groups)
   * agent/structs/intention.go   `IntentionPrecedenceSorter.Less`
   * agent/xds/rbac.go            `makeRBACRules`, `intentionListToIntermediateRBACForm`,
        `removeSameSourceIntentions`, `intentionToIntermediateRBACForm`, `removeIntentionPrecedence`,
@@ -10,6 +10,7 @@ Mirrors (consul CE: partition = namespace = `default`, no sameness groups, no JW
        `rbacIntention.FlattenPrincipal` / `flattenPrincipalFromCert` / `flattenPrincipalFromXFCC`,
        `rbacPermission.Flatten`, `simplifyNotSourceSlice`, `ixnSourceMatches`, `countWild`,
        `optimizePrincipals`, `andPrincipals` / `orPrincipals` / `andPermissions`, `convertPermission`,
+       `addJWTPrincipal`, `jwtClaimsToPrincipals`, `segmentToPrincipal` / `segmentToPermission`, `pathToSegments`,
        `makeSpiffePattern` (REPAIRED form: `regexp.QuoteMeta` on namespace, service and partition,
        not on the trust domain), `makeSpiffeMeshGatewayPattern`, `xfccPrincipal`
   * agent/connect/uri_service.go, uri_mesh_gateway_ce.go   the SPIFFE ids callers present
@@ -63,6 +64,10 @@ def cNs : Bytes := [47, 110, 115, 47]
 #guard cNs == str "/ns/"
 def cDc : Bytes := [47, 100, 99, 47]
 #guard cDc == str "/dc/"
+def cJwtPayload : Bytes := [106, 119, 116, 95, 112, 97, 121, 108, 111, 97, 100, 95]
+#guard cJwtPayload == str "jwt_payload_"
+def cIss : Bytes := [105, 115, 115]
+#guard cIss == str "iss"
 
 /-! ## the intentions (the program being translated) -/
 
@@ -88,10 +93,23 @@ structure HttpPerm where
   methods : List Name
 deriving DecidableEq, Repr
 
-/-- `structs.IntentionPermission`; `allow` ⇔ `Action == "allow"` -/
+/-- `structs.IntentionJWTClaimVerification` -/
+structure JwtClaim where
+  path : List Name
+  value : Name
+deriving DecidableEq, Repr
+
+/-- `structs.IntentionJWTProvider` -/
+structure JwtProv where
+  name : Name
+  claims : List JwtClaim
+deriving DecidableEq, Repr
+
+/-- `structs.IntentionPermission`; `allow` ⇔ `Action == "allow"`; `jwt` = `JWT.Providers` (nil ⇒ []) -/
 structure Perm where
   allow : Bool
   http : Option HttpPerm
+  jwt : List JwtProv
 deriving DecidableEq, Repr
 
 /-- `structs.Intention` as far as `makeRBACRules` reads it; `allow` ⇔ `Action == "allow"` -/
@@ -102,6 +120,7 @@ structure Ixn where
   prec : Nat
   allow : Bool
   perms : List Perm
+  jwt : List JwtProv     -- `JWT.Providers` of the config entry (nil ⇒ [])
 deriving DecidableEq, Repr
 
 /-- `pbpeering.PeeringTrustBundle` -/
@@ -111,10 +130,11 @@ structure Bundle where
   ap : Name
 deriving DecidableEq, Repr
 
-/-- `rbacLocalInfo` + `peerTrustBundles` (in slice order) -/
+/-- `rbacLocalInfo` + `peerTrustBundles` (in slice order) + `providerMap` (jwt-provider name ↦ issuer) -/
 structure Env where
   localTd : Name
   bundles : List Bundle
+  providers : List (Name × Name)
 deriving DecidableEq, Repr
 
 /-- `Intention.UpdatePrecedence` in CE (namespaces are never wildcards): exact destination 9 / 8,
@@ -215,6 +235,7 @@ inductive Pm
   | any
   | urlPath (m : StrM)
   | header (h : HdrM)
+  | mdata (path : List Name) (value : Name)   -- dynamic metadata of envoy.filters.http.jwt_authn, exact string
   | andRules (l : List Pm)
   | orRules (l : List Pm)
   | notRule (p : Pm)
@@ -225,6 +246,7 @@ inductive Pr
   | id (s : Src)       -- authenticated.principal_name ~ makeSpiffePattern(s)
   | gw (td : Name)     -- authenticated.principal_name ~ makeSpiffeMeshGatewayPattern(td)
   | xfcc (s : Src)     -- header x-forwarded-client-cert ~ first element has URI matching s
+  | mdata (path : List Name) (value : Name)   -- dynamic metadata of envoy.filters.http.jwt_authn, exact string
   | andIds (l : List Pr)
   | orIds (l : List Pr)
   | notId (p : Pr)
@@ -257,7 +279,10 @@ structure Req where
   path : Name
   headers : List (Name × Name)
   rx : List (Name × Name)
+  jmeta : List (List Name × Name)   -- string values in the jwt_authn dynamic metadata, by path
 deriving DecidableEq, Repr
+
+def reqHas (r : Req) (path : List Name) (value : Name) : Bool := r.jmeta.contains (path, value)
 
 def lowerByte (b : Nat) : Nat := if 65 ≤ b ∧ b ≤ 90 then b + 32 else b
 def lower (s : Name) : Name := s.map lowerByte
@@ -288,6 +313,7 @@ def evalPm (r : Req) : Pm → Bool
   | .any => true
   | .urlPath m => strMatch r m r.path
   | .header h => hdrMatch r h
+  | .mdata p v => reqHas r p v
   | .andRules l => evalPmAll r l
   | .orRules l => evalPmAny r l
   | .notRule p => !evalPm r p
@@ -306,12 +332,14 @@ structure Sem (C : Type) where
   idM : Src → C → Bool
   gwM : Name → C → Bool
   xfccM : Src → C → Bool
+  metaM : List Name → Name → C → Bool
 
 mutual
 def evalPr {C : Type} (σ : Sem C) (c : C) : Pr → Bool
   | .id s => σ.idM s c
   | .gw td => σ.gwM td c
   | .xfcc s => σ.xfccM s c
+  | .mdata p v => σ.metaM p v c
   | .andIds l => evalPrAll σ c l
   | .orIds l => evalPrAny σ c l
   | .notId p => !evalPr σ c p
@@ -388,10 +416,25 @@ def convertPermission (p : Perm) : Pm :=
 inductive Act | deny | allow | l7
 deriving DecidableEq, Repr
 
+/-- `JWTInfo`: an intention's provider with the issuer of its jwt-provider config entry -/
+structure JwtInfo where
+  name : Name
+  issuer : Name
+  claims : List JwtClaim
+deriving DecidableEq, Repr
+
+/-- the `providerMap[prov.Name]` lookups; a provider without config entry is an error of
+    `makeRBACRules` (`jwtMissing` below), here it is skipped -/
+def resolveJwt (env : Env) (ps : List JwtProv) : List JwtInfo :=
+  ps.filterMap fun p => (env.providers.lookup p.name).map fun iss => ⟨p.name, iss, p.claims⟩
+
+def jwtUnknown (env : Env) (ps : List JwtProv) : Bool := ps.any fun p => (env.providers.lookup p.name).isNone
+
 /-- `rbacPermission` -/
 structure RPerm where
   allow : Bool
   pm : Pm
+  jwt : List JwtInfo
 deriving Repr
 
 /-- `rbacIntention` before precedence removal -/
@@ -399,18 +442,26 @@ structure RIxn where
   src : Src
   act : Act
   perms : List RPerm
+  jwt : List JwtInfo
 deriving Repr
 
-/-- `intentionToIntermediateRBACForm` -/
-def toRIxn (http : Bool) (s : Src) (i : Ixn) : RIxn :=
+/-- `intentionToIntermediateRBACForm` (JWT only on HTTP listeners) -/
+def toRIxn (env : Env) (http : Bool) (s : Src) (i : Ixn) : RIxn :=
+  let jwt := if http then resolveJwt env i.jwt else []
   if i.perms ≠ [] then
-    if http then ⟨s, .l7, i.perms.map fun p => ⟨p.allow, convertPermission p⟩⟩
-    else ⟨s, .deny, []⟩
-  else ⟨s, if i.allow then .allow else .deny, []⟩
+    if http then ⟨s, .l7, i.perms.map fun p => ⟨p.allow, convertPermission p, resolveJwt env p.jwt⟩, jwt⟩
+    else ⟨s, .deny, [], jwt⟩
+  else ⟨s, if i.allow then .allow else .deny, [], jwt⟩
 
 /-- `intentionListToIntermediateRBACForm` after the sort and `removeSameSourceIntentions` -/
 def toRIxns (env : Env) (http : Bool) (xs : List Ixn) : List RIxn :=
-  xs.filterMap fun i => (srcOf env i.peer i.name).map fun s => toRIxn http s i
+  xs.filterMap fun i => (srcOf env i.peer i.name).map fun s => toRIxn env http s i
+
+/-- `makeRBACRules` returns an error when an intention that reaches the conversion (trust bundle
+    present) names a JWT provider without jwt-provider config entry -/
+def jwtMissing (env : Env) (http : Bool) (xs : List Ixn) : Bool :=
+  http && xs.any fun i =>
+    (srcOf env i.peer i.name).isSome && (jwtUnknown env i.jwt || i.perms.any fun p => jwtUnknown env p.jwt)
 
 def dfltAct (dflt : Bool) : Act := if dflt then .allow else .deny
 
@@ -444,11 +495,29 @@ def flattenFromXFCC (s : Src) (nots : List Src) : Pr :=
   let ns := simplifyNotSources nots
   if ns = [] then .xfcc s else andPrincipals (.xfcc s :: ns.map fun n => .notId (.xfcc n))
 
-/-- `rbacIntention.FlattenPrincipal` (no JWT) -/
-def flattenPrincipal (env : Env) (xf : Bool) (s : Src) (nots : List Src) : Pr :=
+/-- `buildPayloadInMetadataKey` -/
+def payloadKey (provider : Name) : Name := cJwtPayload ++ provider
+
+/-- one provider of `addJWTPrincipal`: issuer, and the claims if any -/
+def jwtPr (i : JwtInfo) : Pr :=
+  let key := payloadKey i.name
+  let p : Pr := .mdata [key, cIss] i.issuer
+  if i.claims = [] then p
+  else andPrincipals [p, andPrincipals (i.claims.map fun c => .mdata (key :: c.path) c.value)]
+
+/-- `addJWTPrincipal` -/
+def addJWTPrincipal (p : Pr) (infos : List JwtInfo) : Pr :=
+  if infos = [] then p else andPrincipals [p, orPrincipals (infos.map jwtPr)]
+
+/-- the principal without the JWT part -/
+def flattenSource (env : Env) (xf : Bool) (s : Src) (nots : List Src) : Pr :=
   if !xf then flattenFromCert s nots
   else if s.peer = [] then flattenFromCert s nots
   else andPrincipals [.gw env.localTd, flattenFromXFCC s nots]
+
+/-- `rbacIntention.FlattenPrincipal` -/
+def flattenPrincipal (env : Env) (xf : Bool) (s : Src) (nots : List Src) (jwt : List JwtInfo) : Pr :=
+  addJWTPrincipal (flattenSource env xf s nots) jwt
 
 /-! ## `removeSourcePrecedence` -/
 
@@ -457,6 +526,7 @@ structure SIxn where
   src : Src
   act : Act
   perms : List RPerm
+  jwt : List JwtInfo
   nots : List Src
   principal : Pr
 deriving Repr
@@ -473,16 +543,22 @@ def rspGo (env : Env) (xf : Bool) (dflt : Bool) (rp : List RIxn) : List RIxn →
     let nots := (rp.filter fun i => ixnSourceMatches i.src x.src).map (·.src)
     let tail := rspGo env xf dflt (x :: rp) rest
     if shadowed || x.act = dfltAct dflt then tail
-    else ⟨x.src, x.act, x.perms, nots, flattenPrincipal env xf x.src nots⟩ :: tail
+    else ⟨x.src, x.act, x.perms, x.jwt, nots, flattenPrincipal env xf x.src nots x.jwt⟩ :: tail
 
 def removeSourcePrecedence (env : Env) (xf : Bool) (dflt : Bool) (xs : List RIxn) : List SIxn :=
   rspGo env xf dflt [] xs
 
 /-! ## `removePermissionPrecedence` -/
 
-/-- `rbacPermission.Flatten` (no JWT) -/
-def flattenPerm (pm : Pm) (nots : List Pm) : Pm :=
-  if nots = [] then pm else andPermissions (pm :: nots.map Pm.notRule)
+/-- one provider of `rbacPermission.Flatten`: issuer AND all claims (`ANY` when there are none) -/
+def jwtPm (i : JwtInfo) : Pm :=
+  let key := payloadKey i.name
+  andPermissions [.mdata [key, cIss] i.issuer, andPermissions (i.claims.map fun c => .mdata (key :: c.path) c.value)]
+
+/-- `rbacPermission.Flatten` -/
+def flattenPerm (pm : Pm) (nots : List Pm) (jwt : List JwtInfo) : Pm :=
+  let c := if nots = [] then pm else andPermissions (pm :: nots.map Pm.notRule)
+  if jwt = [] then c else andPermissions [c, orPermissions (jwt.map jwtPm)]
 
 /-- `rp` = the permissions already passed, nearest first: every later permission gets `NOT` of
     every earlier one (also of the dropped ones); a permission whose action equals the default
@@ -491,7 +567,7 @@ def rppGo (dflt : Bool) (rp : List RPerm) : List RPerm → List Pm
   | [] => []
   | p :: rest =>
     let tail := rppGo dflt (p :: rp) rest
-    if p.allow = dflt then tail else flattenPerm p.pm (rp.map (·.pm)) :: tail
+    if p.allow = dflt then tail else flattenPerm p.pm (rp.map (·.pm)) p.jwt :: tail
 
 def removePermissionPrecedence (dflt : Bool) (ps : List RPerm) : List Pm := rppGo dflt [] ps
 
@@ -551,10 +627,11 @@ def panics (dflt : Bool) : List RIxn → Bool
   | [x] => x.src.peer = star && x.act ≠ dfltAct dflt
   | xs => xs.any (·.src.peer = star)
 
-/-- `makeRBACRules`; `none` = panic -/
+/-- `makeRBACRules`; `none` = error (unknown JWT provider) or panic (wildcard peer) -/
 def translate (env : Env) (ixns : List Ixn) (dflt http : Bool) : Option Rbac :=
   let rs := intermediate env http ixns
-  if panics dflt rs then none
+  if jwtMissing env http (removeSameSource (sortIxns ixns)) then none
+  else if panics dflt rs then none
   else some (assemble dflt (removeIntentionPrecedence env (expectXFCC env http ixns) dflt rs))
 
 /-! ## the specification: intention precedence -/
@@ -579,19 +656,29 @@ def permMatches (r : Req) (p : Perm) : Bool :=
   | none => true
   | some h => pathMatches r h && h.headers.all (hdrPermMatches r) && methodMatches r h.methods
 
-/-- what an intention decides once it is the one that matches the caller -/
-def verdict (dflt http : Bool) (r : Req) (i : Ixn) : Bool :=
-  if i.perms = [] then i.allow
+/-- is the JWT requirement met? `has path value`: the validated token payload has that string.
+    No providers ⇒ no requirement; otherwise one provider must fit with issuer and all claims. -/
+def jwtSat (has : List Name → Name → Bool) (infos : List JwtInfo) : Bool :=
+  infos.isEmpty || infos.any fun i =>
+    has [payloadKey i.name, cIss] i.issuer && i.claims.all fun c => has (payloadKey i.name :: c.path) c.value
+
+/-- what an intention decides once it is the one that matches the caller. A JWT requirement
+    (HTTP listeners only) that is not met sends the decision to the default policy. -/
+def verdict (env : Env) (dflt http : Bool) (has : List Name → Name → Bool) (r : Req) (i : Ixn) : Bool :=
+  if http && !jwtSat has (resolveJwt env i.jwt) then dflt
+  else if i.perms = [] then i.allow
   else if !http then false       -- L7 intentions on a TCP listener are treated as deny
   else match i.perms.find? (permMatches r) with
     | none => dflt               -- no permission matches: default policy
-    | some p => p.allow          -- first matching permission decides
+    | some p =>                  -- first matching permission decides, if its JWT requirement is met
+      if jwtSat (reqHas r) (resolveJwt env p.jwt) then p.allow else dflt
 
 /-- `m peer name`: does the caller match that source? (`false` for a peer without trust bundle) -/
-def specAllowM (m : Name → Name → Bool) (ixns : List Ixn) (dflt http : Bool) (r : Req) : Bool :=
+def specAllowM (env : Env) (m : Name → Name → Bool) (has : List Name → Name → Bool) (ixns : List Ixn)
+    (dflt http : Bool) (r : Req) : Bool :=
   match (sortIxns ixns).find? (fun i => m i.peer i.name) with
   | none => dflt
-  | some i => verdict dflt http r i
+  | some i => verdict env dflt http has r i
 
 /-- the matcher of a source as the policy encodes it -/
 def srcM {C : Type} (σ : Sem C) (env : Env) (xf : Bool) (s : Src) (c : C) : Bool :=
@@ -606,7 +693,7 @@ def ixnM {C : Type} (σ : Sem C) (env : Env) (xf : Bool) (c : C) (peer name : Na
     decides; for an L7 intention the first permission that matches the request decides; nothing
     matches ⇒ the default policy. -/
 def specAllow {C : Type} (σ : Sem C) (env : Env) (ixns : List Ixn) (dflt http : Bool) (c : C) (r : Req) : Bool :=
-  specAllowM (ixnM σ env (expectXFCC env http ixns) c) ixns dflt http r
+  specAllowM env (ixnM σ env (expectXFCC env http ixns) c) (fun p v => σ.metaM p v c) ixns dflt http r
 
 /-! ## the regular-expression layer: pattern text, its meaning, and the ids callers present -/
 
@@ -690,6 +777,7 @@ def xfccToks (s : Src) : List Tok := [.notComma, .lit cUri] ++ idToksBody s ++ [
 structure Wire where
   principal : Bytes          -- URI SAN of the TLS peer certificate
   xfcc : Option Bytes        -- x-forwarded-client-cert request header
+  jmeta : List (List Name × Name)   -- jwt_authn dynamic metadata of the request
 deriving DecidableEq, Repr
 
 /-- the meaning of the principal leaves on wire data -/
@@ -697,6 +785,7 @@ def wireSem : Sem Wire where
   idM s c := matchToks (idToks s) c.principal
   gwM td c := matchToks (gwToks td) c.principal
   xfccM s c := match c.xfcc with | none => false | some h => matchToks (xfccToks s) h
+  metaM p v c := c.jmeta.contains (p, v)
 
 /-- a SPIFFE identity -/
 inductive Ident
@@ -741,9 +830,10 @@ def xfccHeader : List XElem → Bytes
 structure Caller where
   direct : Ident                    -- identity of the TLS peer
   fwd : Option (List XElem)         -- XFCC header, if any
+  jmeta : List (List Name × Name)    -- validated JWT payloads (jwt_authn dynamic metadata)
 deriving DecidableEq, Repr
 
-def wire (c : Caller) : Wire := ⟨spiffe c.direct, c.fwd.map xfccHeader⟩
+def wire (c : Caller) : Wire := ⟨spiffe c.direct, c.fwd.map xfccHeader, c.jmeta⟩
 
 /-- trust domains are compared through the unquoted pattern -/
 def hostEq : Bytes → Bytes → Bool
@@ -768,5 +858,6 @@ def callerSem : Sem Caller where
   xfccM s c := match c.fwd with
     | some (e :: _) => identM s e.uri
     | _ => false
+  metaM p v c := c.jmeta.contains (p, v)
 
 end CV.Rbac
